@@ -8,7 +8,7 @@ set -u
 cd /verif
 what=${*:-defects equivalent seeded}
 rc=0
-expect() { case $1 in F1) echo "C03 C10";; F2) echo C06;; F3) echo C12;; F4|F7|F10) echo C17;; F11) echo C03;; F12) echo C09;; F13) echo C20;; F5) echo C19;; F6) echo C07;; esac; }
+expect() { case $1 in F1) echo "C03 C10";; F2) echo C06;; F3) echo C12;; F4|F7|F10) echo C17;; F11) echo C03;; F12) echo C09;; F13) echo C20;; F14) echo C07;; F5) echo C19;; F6) echo C07;; esac; }
 for w in $what; do
  case $w in
  defects)
